@@ -128,6 +128,11 @@ def make_cases(tier):
                     A.stanza(q_id, [A.node(A.var("n")), A.attrn(A.var("n"), A.attr("v", A.svar(A.cap("id"), "v")))])])
         for src in (2, 3, 7, 9, 17):
             base.append(A.case("c08dup-%d-%d-lazy" % (j, src), f, src, "lazy"))
+    # the second definition reaches the node through another pattern (processed later, other nodes' definitions in between)
+    import checks.c04 as c04
+    for j, f in enumerate(c04.duplicate_files()[3:]):
+        for src in (2, 20):
+            base.append(A.case("c08dup2-%d-%d-lazy" % (j, src), f, src, "lazy"))
     # a stanza whose query is the bare wildcard, in every position of the file
     base.append(A.case("c08wild-lazy", A.file([
         A.stanza("(pass_statement) @p ", [A.node(A.svar(A.cap("p"), "n"))]),
